@@ -114,6 +114,7 @@ def run(chk, prog):
     for mod_, keep in ((C26, lambda o: o["instance"].startswith(("Importance.run_smc", "ImportanceK.run_smc", "ParticleCollection.get_log", "Target."))),
                        (C29, lambda o: o["rule"] in ("REPARAM-NOISE", "REINFORCE-FORM", "ESTIMATE-DEP") or o["instance"].startswith(("NormalREPARAM", "MvNormalDiagREPARAM", "FlipEnum.", "TailCall", "Expectation")))):
         tmp = Check(mod_.__name__.split(".")[-1], chk.tier, chk.seed, write_evidence=False)
+        tmp.nested = True
         mod_.run(tmp, prog)
         viol = {(v["rule"], v["instance"]): v for v in tmp.violations}
         for o in tmp.obligations:
@@ -124,4 +125,7 @@ def run(chk, prog):
                 else:
                     chk.ok(o["rule"], o["instance"], o["fact"])
     chk.note("inherited open findings (owned elsewhere, one defect one finding): C26 PROPOSAL-PAIRING / RETAINED-SCORE (CSMC side), C29 KONT-ARITY for flip_mvd / categorical_enum guides")
+    # a guide declared with @marginal contributes Marginal.random_weighted's weight as its log density (C25's obligations)
+    from ._share import take
+    take(chk, prog, "C25", lambda o: o["instance"].startswith("Marginal.random_weighted") and "returned-weight" not in o["instance"], "Marginal.random_weighted obligations (from C25)", 4)
     chk.explanation = "sign and composition of the four VI losses, key threading, and family pairing of ADEV primitives with log densities"
